@@ -438,7 +438,7 @@ func (w *World) checkRegistry(fp string) {
 	w.Srv.Clients().Range(func(id string, s engine.Socket) bool {
 		keys[id] = true
 		if s.ReadyState() == "closed" {
-			x.Fail("closed-session-reachable%s: session %s is closed but still in the client table", fp, shortSid(id))
+			x.Fail("closed-session-reachable%s: a session is closed but still in the client table", fp)
 		}
 		if s.Id() != id {
 			x.Fail("registry-key%s: key %s holds session %s", fp, id, s.Id())
@@ -455,7 +455,7 @@ func (w *World) checkRegistry(fp string) {
 	for _, rec := range w.Socks {
 		st := rec.Sock.ReadyState()
 		if st != "closed" && !keys[rec.Id] {
-			x.Fail("live-session-unreachable%s: session %s (state %s) not in the client table", fp, shortSid(rec.Id), st)
+			x.Fail("live-session-unreachable%s: session #%d (state %s) not in the client table", fp, rec.Index, st)
 		}
 	}
 }
